@@ -9,6 +9,7 @@ import (
 	"math"
 	"sort"
 	"strings"
+	"sync"
 	"sync/atomic"
 
 	"github.com/ctessum/geom"
@@ -996,5 +997,107 @@ func (e *Explorer) Sequences(depth int, nn bool) SeqStats {
 	if m := u.Modified(); m != "" {
 		viol("stored-object-modified", nil, m)
 	}
+	return stats
+}
+
+// ---- four-phase histories -----------------------------------------------------
+
+// PhaseStats counts what Phases covered.
+type PhaseStats struct {
+	Histories, States, Distinct, Ops int64
+}
+
+// Phases explores every history of the shape
+//
+//	insert all objects in order a; delete in order b down to n2 objects;
+//	insert the missing objects in order c; delete in order d down to nothing
+//
+// for all a, b, c, d in orders and all n2 in 0..n2max, on the real tree (shared
+// prefixes are run once, branches continue on clones). The per-state oracle runs
+// in every state whose canonical key has not been seen before. These histories
+// grow a tree to its full height, shrink it until the root chain collapses,
+// regrow it through another root split and shrink it again: the only way to
+// reach states whose shape depends on bookkeeping done two phases earlier.
+func (e *Explorer) Phases(orders [][]int, n2max int) PhaseStats {
+	u := e.U
+	u.seal()
+	n := len(u.Objs)
+	if e.Seeds == nil {
+		e.Seeds = [][]int{{}}
+	}
+	var stats PhaseStats
+	var mu sync.Mutex
+	seen := map[string]bool{}
+	stop := func() bool { return e.R.Expired() || e.R.NViolationSigs() > 0 }
+	visit := func(s *bfs.State) {
+		atomic.AddInt64(&stats.States, 1)
+		k := string(u.Key(s.Obj))
+		mu.Lock()
+		dup := seen[k]
+		seen[k] = true
+		mu.Unlock()
+		if !dup {
+			atomic.AddInt64(&stats.Distinct, 1)
+			e.CheckState(e, s)
+		}
+	}
+	apply := func(s *bfs.State, op int) *bfs.State {
+		atomic.AddInt64(&stats.Ops, 1)
+		obj, ok := e.Apply(s, op)
+		if !ok || obj == nil {
+			return nil
+		}
+		t := &bfs.State{Obj: obj, Hist: append(append([]uint16{}, s.Hist...), uint16(op))}
+		visit(t)
+		return t
+	}
+	type job struct{ a, b int }
+	var jobs []job
+	for a := range orders {
+		for b := range orders {
+			jobs = append(jobs, job{a, b})
+		}
+	}
+	enum.Parallel(len(jobs), stop, func(ji int) {
+		oa, ob := orders[jobs[ji].a], orders[jobs[ji].b]
+		s := &bfs.State{Obj: &St{T: rtree.NewTree(u.Min, u.Max), Counts: make([]uint8, n)}}
+		for _, i := range oa {
+			if s = apply(s, i); s == nil {
+				return
+			}
+		}
+		size := n
+		for _, i := range ob {
+			if s = apply(s, n+i); s == nil || stop() {
+				return
+			}
+			size--
+			if size > n2max {
+				continue
+			}
+			for _, oc := range orders {
+				s3 := s
+				for _, i := range oc {
+					if s3.Obj.(*St).Counts[i] == 0 {
+						if s3 = apply(s3, i); s3 == nil {
+							break
+						}
+					}
+				}
+				if s3 == nil {
+					continue
+				}
+				for _, od := range orders {
+					atomic.AddInt64(&stats.Histories, 1)
+					s4 := s3
+					for _, i := range od {
+						if s4 = apply(s4, n+i); s4 == nil || stop() {
+							break
+						}
+					}
+				}
+			}
+		}
+	})
 	return stats
 }
